@@ -39,6 +39,9 @@ Definition chk_res {A} (f : A -> A -> bool) (m e : res A) : bool :=
   | _, _ => false
   end.
 
+Definition res_map {A B} (f : A -> B) (r : res A) : res B :=
+  match r with Ok a => Ok (f a) | Raise e => Raise e end.
+
 (* verdict codes: 0 agree, 1 disagree, 2 the model raises ZeroDivisionError where the
    implementation (NumPy float arithmetic: inf/nan instead of an exception) does not *)
 Definition code_res {A} (f : A -> A -> bool) (m e : res A) : nat :=
